@@ -1026,6 +1026,13 @@ func (c *Component) handleAAAResponse(event events.Event) {
 	}
 	resp := data.Response
 
+	// Sessions with no request outstanding carry an empty pending id; an
+	// answer without a request id must never match them.
+	if resp.RequestID == "" {
+		c.logger.Warn("AAA response without request id ignored")
+		return
+	}
+
 	c.sessionMu.RLock()
 	var sess *SessionState
 	for _, s := range c.sessions {
